@@ -99,6 +99,17 @@ def handlers : List (String × Handler) := [
     match (← dtypeOfName (← getStr j "dtype")) with
     | some d => pure (exceptToJson (fun _ => Json.bool true) (checkRepr (← getInt j "v") d))
     | none => throw "dtype required"),
+  ("labelPixels", fun j => do
+    let nums ← getNatList j "nums"
+    let px ← (← getArr j "pixels").toList.mapM fun p => do
+      let a ← p.getArr?
+      a.toList.mapM (·.getNat?)
+    pure (exceptToJson natsToJson (px.mapM (labelPixel nums)))),
+  ("combinePixels", fun j => do
+    let px ← (← getArr j "pixels").toList.mapM fun p => do
+      let a ← p.getArr?
+      a.toList.mapM (·.getNat?)
+    pure (okJson (natsToJson (px.map combinePixel)))),
   ("segmentNumbers", fun j => do
     let descs ← (← getArr j "descs").toList.mapM getDesc
     let f ← getFilter (j.getObjValD "filters")
